@@ -267,7 +267,7 @@ def run_check(modname, tier='quick', seed=0):
             if o['name'].startswith('frame:'):
                 # the loop specification does not describe a container the (changed) body mutates: the function is no longer
                 # covered by its contract - undecided, not evidence against the property
-                undecided.append(dict(function=r['function'], reason='%s: the loop specification does not cover this container' % o['name']))
+                undecided.append(dict(function=r['function'], reason='%s: the %s specification does not cover this container' % (o['name'], 'block' if o['name'].startswith('frame:block:') else 'loop')))
                 continue
             # failed obligation (sat with model, or not dischargeable within the budget)
             concrete = None
